@@ -39,6 +39,9 @@ def gen(ctx):
         for dim in (1, 2):
             yield dict(kind="dyncont", dim=dim, H=rng.randint(2, 4), T1=rng.randint(2, 5), K=K, memo=rng.choice(["False", "True", "recursive_lit"]),
                        seed=rng.randrange(10 ** 6))
+    for dim in (1, 2):
+        for memo in ("False", "True", "recursive_lit"):
+            yield dict(kind="dyncont", dim=dim, H=rng.randint(1, 3), T1=rng.randint(1, 3), K=0, memo=memo, seed=rng.randrange(10 ** 6))
     # inexact floating-point rules on narrow float dtypes (oracle only: no exact model of float arithmetic):
     # the split law must hold bit for bit because every step reads the stored (rounded) previous row
     for _ in range(ctx.n(60, 600)):
@@ -116,6 +119,16 @@ def oracle_dyncont(c):
         rule = lambda n, cc, t: int(np.sum(n)) % 2                        # noqa: E731
         ev = lambda a, T: cpl.evolve2d(a, timesteps=T, apply_rule=rule, r=1, memoize=memo)          # noqa: E731
     first = ev(ca, c["T1"])
+    if K == 0:
+        # the callable declines at once: the result is the given history, as a NEW array the caller may go on working on
+        snap = first.tobytes()
+        res = ev(first, lambda a, t: False)
+        if res.shape != first.shape or res.dtype != first.dtype or res.tobytes() != snap:
+            return "a callable timesteps that declines at once does not return the given history"
+        if np.shares_memory(res, first):
+            return "a callable timesteps that declines at once returns the caller's own array (writing to the result changes the given history)"
+        res[-1][...] = 7
+        return None if first.tobytes() == snap else "writing to the result changed the given history"
     second = ev(first, lambda a, t: t < K)
     once = ev(ca.copy(), c["T1"] + K - 1)
     if second.shape != once.shape or second.tobytes() != once.tobytes():
@@ -156,7 +169,7 @@ def oracle(c):
     ca = ev1.make_ca(c)
     snap = (ca.tobytes(), ca.dtype, ca.shape)
     memo = ev1.memo_value(c["memo"])
-    rule = Rule(c["rule"], c.get("scale", 1), clobber=bool(c.get("clobber")))
+    rule = Rule(c["rule"], c.get("scale", 1), clobber=bool(c.get("clobber")), mixret=bool(c.get("mixret")))
     first = cpl.evolve(ca, timesteps=T1, apply_rule=rule, r=c["r"], memoize=memo)
     if (ca.tobytes(), ca.dtype, ca.shape) != snap:
         return "the caller's array was modified by evolve"
@@ -171,13 +184,13 @@ def oracle(c):
     second = cpl.evolve(first, timesteps=T2, apply_rule=rule, r=c["r"], memoize=memo)
     if first.tobytes() != snap1:
         return "the caller's array was modified by the continued evolve"
-    once = cpl.evolve(ev1.make_ca(c), timesteps=T1 + T2 - 1, apply_rule=Rule(c["rule"], c.get("scale", 1), clobber=bool(c.get("clobber"))), r=c["r"], memoize=memo)
+    once = cpl.evolve(ev1.make_ca(c), timesteps=T1 + T2 - 1, apply_rule=Rule(c["rule"], c.get("scale", 1), clobber=bool(c.get("clobber")), mixret=bool(c.get("mixret"))), r=c["r"], memoize=memo)
     if second.shape != once.shape or second.dtype != once.dtype or second.tobytes() != once.tobytes():
         return "evolving %d then %d steps differs from %d steps at once" % (T1, T2, T1 + T2 - 1)
     # only the last row of the history matters
     if H > 1:
         c2 = dict(c, hist=[c["hist"][-1]])
-        alone = cpl.evolve(ev1.make_ca(c2), timesteps=T1, apply_rule=Rule(c["rule"], c.get("scale", 1), clobber=bool(c.get("clobber"))), r=c["r"], memoize=memo)
+        alone = cpl.evolve(ev1.make_ca(c2), timesteps=T1, apply_rule=Rule(c["rule"], c.get("scale", 1), clobber=bool(c.get("clobber")), mixret=bool(c.get("mixret"))), r=c["r"], memoize=memo)
         if alone[1:].tobytes() != first[H:].tobytes():
             return "new rows depend on more than the last row of the history"
     return None
